@@ -160,8 +160,8 @@ func ruleSB(w *world.World, r *report.RuleResult) {
 	}
 	for i := 0; i < structs[0].NumFields(); i++ {
 		for j := 0; j < structs[1].NumFields(); j++ {
-			if structs[0].Field(i).Name() == structs[1].Field(j).Name() {
-				common[structs[0].Field(i).Name()] = true
+			if world.CanonField(structs[0].Field(i)) == world.CanonField(structs[1].Field(j)) {
+				common[world.CanonField(structs[0].Field(i))] = true
 			}
 		}
 	}
@@ -295,7 +295,7 @@ func ruleRC(w *world.World, r *report.RuleResult) {
 					switch x := v.(type) {
 					case *ssa.Field:
 						st, ok := x.X.Type().Underlying().(*types.Struct)
-						return ok && st.Field(x.Field).Name() == field && derivesFrom(x.X, func(y ssa.Value) bool { return y == ssa.Value(data) }, 0)
+						return ok && world.CanonField(st.Field(x.Field)) == field && derivesFrom(x.X, func(y ssa.Value) bool { return y == ssa.Value(data) }, 0)
 					case *ssa.FieldAddr:
 						return world.FieldName(x) == field && derivesFrom(x.X, func(y ssa.Value) bool { return y == ssa.Value(data) }, 0)
 					}
